@@ -494,7 +494,7 @@ func roundTrips(c *lib.Ctx, ev *eval.Evaler) ([]rtCase, error) {
 		var s string
 		var y any
 		if i%50 == 0 { // a sample goes through the builtins `to-string` and `num` themselves
-			o := elv.RunCtx(ev, "var s = (to-string "+reprNum(x)+"); put $s; put (num $s)", nil, 60*time.Second)
+			o := elv.RunCtx(ev, "{ var s = (to-string "+reprNum(x)+"); put $s; put (num $s) }", nil, 60*time.Second)
 			c.AddEvals(1)
 			if o.Timeout || o.Panic != "" {
 				return nil, lib.Infra("to-string/num of %s: timeout or panic %s", reprNum(x), o.Panic)
